@@ -175,7 +175,7 @@ FNS = [
        sig="pub fn consume_leaking_internal<ReportEmptyFn: Fn() -> bool>(&mut self, report_empty_fn: ReportEmptyFn) -> (r: Option<(usize, u32, i32)>)",
        sig_anchor=r"fn consume_leaking_internal\(&self, report_empty_fn: impl Fn\(\) -> bool\) -> Option<\(&'a mut SlotType, u32, i32\)>",
        rules=[MUTBUF,
-              Rule("R6-slot-index", r"let slot_value = unsafe \{ mutable_buffer\.get_unchecked_mut\(([^()]*)\) \};", r"let slot_value = Self::slot_at(\1);", count=1, note="slot reference -> index (bound obligation)"),
+              Rule("R6-slot-index", r"let (\w+) = unsafe \{ mutable_buffer\.get_unchecked_mut\(([^()]*)\) \};", r"let \1 = Self::slot_at(\2);", count=1, note="slot reference -> index (bound obligation)"),
               Rule("R8-break-value", r"break Some\( \(([^()]*)\) \)", r"return Some( (\1) );", count=1)],
        hints=[(r"let tail = self\.tail\.load\(Relaxed\);", "proof { let d: u32 = tail.wrapping_sub(slot_id); assert(d >= 0x8000_0000u32 ==> (d as i32) < 0i32) by(bit_vector); assert(d < 0x8000_0000u32 ==> (d as i32) >= 0i32 && (d as i32) as u32 == d) by(bit_vector); }")],
        requires="old(self).inv(), forall|r: bool| report_empty_fn.ensures((), r) ==> !r, report_empty_fn.requires(())",
